@@ -93,20 +93,25 @@ Qed.
 
 (* the same function with the current line accumulated in reverse (linear time); used by the
    extracted oracles *)
+(* [List.rev] appends at the end (quadratic); [rev_append _ []] is the same list in linear time *)
+Definition frev (l : bytes) : bytes := rev_append l [].
+Lemma frev_eq l : frev l = rev l.
+Proof. unfold frev. symmetry. apply rev_alt. Qed.
+
 Fixpoint text_lines_fast_aux (rcur : bytes) (after_cr : bool) (s : bytes) : list bytes :=
   match s with
-  | [] => match rcur with [] => [] | _ => [rev rcur] end
+  | [] => match rcur with [] => [] | _ => [frev rcur] end
   | b :: r =>
       if after_cr && (b =? LF)%N then text_lines_fast_aux rcur false r
-      else if (b =? LF)%N then rev rcur :: text_lines_fast_aux [] false r
-      else if (b =? CR)%N then rev rcur :: text_lines_fast_aux [] true r
+      else if (b =? LF)%N then frev rcur :: text_lines_fast_aux [] false r
+      else if (b =? CR)%N then frev rcur :: text_lines_fast_aux [] true r
       else text_lines_fast_aux (b :: rcur) false r
   end.
 Definition text_lines_fast (s : bytes) : list bytes := text_lines_fast_aux [] false s.
 
 Lemma text_lines_fast_aux_eq : forall s rcur cr, text_lines_fast_aux rcur cr s = text_lines_aux (rev rcur) cr s.
 Proof.
-  induction s as [|b r IH]; intros rcur cr; cbn [text_lines_fast_aux text_lines_aux].
+  induction s as [|b r IH]; intros rcur cr; cbn [text_lines_fast_aux text_lines_aux]; rewrite ?frev_eq.
   - destruct rcur as [|x rc]; [reflexivity|]. cbn [rev]. destruct (rev rc ++ [x]) eqn:E; [destruct (rev rc); discriminate|reflexivity].
   - destruct (cr && (b =? LF)%N); [apply IH|].
     destruct (b =? LF)%N; [f_equal; apply (IH [] false)|].
